@@ -12,6 +12,20 @@ Definition pkey (p : proposal) : N * N := (p_height p, p_round p).
 Definition past (s : nstate) (h r : N) : Prop := h < height s \/ (h = height s /\ r <= round s).
 Definition tstep (ty : vtype) : N := match ty with Prevote => 4 | Precommit => 6 end.
 
+(** the signed votes (newest first) never go back in (height, round) *)
+Definition mono_sv (sv : list vote) : Prop :=
+  forall post v pre, sv = post ++ v :: pre ->
+    forall w, In w pre -> v_height w = v_height v -> v_round w <= v_round v.
+
+Lemma mono_sv_cons v sv :
+  mono_sv sv -> (forall w, In w sv -> v_height w = v_height v -> v_round w <= v_round v) ->
+  mono_sv (v :: sv).
+Proof.
+  intros M H post x pre E. destruct post as [|y post]; cbn in E.
+  - injection E as <- <-. exact H.
+  - injection E as <- E. eapply M; eauto.
+Qed.
+
 Record Inv1 (s : nstate) : Prop := {
   i_round : 1 <= round s;
   i_past : forall v, In v (signed_votes (log s)) -> past s (v_height v) (v_round v);
@@ -22,7 +36,8 @@ Record Inv1 (s : nstate) : Prop := {
   i_pcur : forall p, In p (signed_proposals (log s)) -> p_height p = height s -> p_round p = round s ->
                      3 <= step_num (rstep s);
   i_pnodup : NoDup (map pkey (signed_proposals (log s)));
-  i_tk : forall h r st, In (h, r, st) (timeouts s) -> past s h r }.
+  i_tk : forall h r st, In (h, r, st) (timeouts s) -> past s h r;
+  i_mono : mono_sv (signed_votes (log s)) }.
 
 (** the three ways (height, round, step) can advance *)
 Definition adv (s s' : nstate) : Prop :=
@@ -42,8 +57,8 @@ Lemma Inv1_move s s' :
   signed_proposals (log s') = signed_proposals (log s) ->
   tk_ok s s' -> Inv1 s'.
 Proof.
-  intros I A EV EP TK. destruct I as [I1 I2 I3 I4 I5 I6 I7 I8].
-  split; rewrite ?EV, ?EP.
+  intros I A EV EP TK. destruct I as [I1 I2 I3 I4 I5 I6 I7 I8 I9].
+  split; rewrite ?EV, ?EP; [| | | | | | | |exact I9].
   - unfold adv in A. lia.
   - intros v Hv. eapply past_adv; eauto.
   - intros v Hv Hh Hr. specialize (I2 v Hv). specialize (I3 v Hv). unfold adv, past in *. lia.
@@ -68,9 +83,11 @@ Lemma Inv1_sign_vote s s' v :
   signed_proposals (log s') = signed_proposals (log s) ->
   tk_ok s s' -> Inv1 s'.
 Proof.
-  intros I Hh Hr Hst Hty Hlt Vh Vr EV EP TK. destruct I as [I1 I2 I3 I4 I5 I6 I7 I8].
+  intros I Hh Hr Hst Hty Hlt Vh Vr EV EP TK. destruct I as [I1 I2 I3 I4 I5 I6 I7 I8 I9].
   assert (A : adv s s') by (unfold adv; lia).
-  split; rewrite ?EV, ?EP.
+  split; rewrite ?EV, ?EP;
+    [| | | | | | | |apply mono_sv_cons; [exact I9|];
+                     intros w Hw Wh; specialize (I2 w Hw); unfold past in I2; lia].
   - lia.
   - intros w [<-|Hw]; [unfold past; lia|]. eapply past_adv; eauto.
   - intros w [<-|Hw] Wh Wr; [exact Hty|]. specialize (I3 w Hw). lia.
@@ -92,9 +109,9 @@ Lemma Inv1_sign_prop s s' p :
   signed_proposals (log s') = p :: signed_proposals (log s) ->
   tk_ok s s' -> Inv1 s'.
 Proof.
-  intros I Hh Hr Hst Hty Hlt Vh Vr EV EP TK. destruct I as [I1 I2 I3 I4 I5 I6 I7 I8].
+  intros I Hh Hr Hst Hty Hlt Vh Vr EV EP TK. destruct I as [I1 I2 I3 I4 I5 I6 I7 I8 I9].
   assert (A : adv s s') by (unfold adv; lia).
-  split; rewrite ?EV, ?EP.
+  split; rewrite ?EV, ?EP; [| | | | | | | |exact I9].
   - lia.
   - intros w Hw. eapply past_adv; eauto.
   - intros w Hw Wh Wr. specialize (I3 w Hw). lia.
@@ -620,6 +637,7 @@ Lemma init_inv : Inv1 (init cfg).
 Proof.
   unfold init. apply Inv1_sched.
   - split; cbn; try lia; try tauto; try constructor.
+    intros post v pre E. destruct post; discriminate.
   - unfold past. cbn. lia.
 Qed.
 
